@@ -251,7 +251,15 @@ class AnnotationInfo:  # pylint:disable=too-few-public-methods
         if self.optional and typing_inspect.is_union_type(raw_annotation):
             # Annotated with Optional or Union[..., NoneType]
             # get_args -> (pandera.typing.Index[str], <class 'NoneType'>)
-            raw_annotation = typing_inspect.get_args(raw_annotation)[0]
+            # NoneType may stand anywhere; the other members stay a Union
+            not_none = tuple(
+                arg
+                for arg in typing_inspect.get_args(raw_annotation)
+                if arg is not type(None)
+            )
+            raw_annotation = (
+                not_none[0] if len(not_none) == 1 else Union[not_none]
+            )
             self.raw_annotation = raw_annotation
 
         self.origin = typing_inspect.get_origin(raw_annotation)
